@@ -40,11 +40,9 @@ COMMON = {
 # ------------------------------------------------------------------------------------------------------------------
 C10 = dict(COMMON)
 C10.update({
-    ("ir::types::base::Type::from_type", "panic!()"):
-        (1, "GUARD:G-SCHEMA-TYPES", "types reaching the frontend come from an accepted schema; Schema::new already built every field type "
-            "with Type::from_type (C19 lists the >30-levels case)"),
-    ("ir::types::base::Type::new_list_type", "panic!()"):
-        (1, "LIMIT", "31 nested lists: one level per enclosing @fold plus the schema's own nesting"),
+    # NOT audited any more (reasons were wrong; both are listed known findings since the bug hunt of round 2):
+    #   Type::from_type  panic!("too many nested lists")  - a parameter type of 31 list levels without a default is accepted by Schema::new
+    #   Type::new_list_type panic!("too many nested lists") - 31 nested @fold, or one_of on a 30-level list property: small queries, not a LIMIT
     ("<frontend::error::FrontendError as core::convert::From<alloc::vec::Vec<frontend::error::FrontendError>>>::from", "assert!()"):
         (1, "LOCAL", "every caller converts only a non-empty error vector (`if errors.is_empty() {Ok} else {Err(errors.into())}`)"),
     ("<frontend::error::FrontendError as core::convert::From<alloc::vec::Vec<frontend::error::FrontendError>>>::from", "unwrap<-Iterator::next"):
@@ -89,7 +87,8 @@ C10.update({
     ("frontend::make_duplicated_output_names_error", "index &BTreeMap<ir::Vid, ir::IRVertex>"): (2, "GUARD:G-DUP-VERTICES", "both call sites pass a map that holds the component's vertices and those of its folds' components "
                                                                                                    "(a fold's count output refers to the fold's root vertex)"),
     ("frontend::make_edge_parameters", "assert!()"): (1, "GUARD:G-SCHEMA-DEFAULTS", "Schema::new rejects defaults that do not fit the parameter type"),
-    ("frontend::make_edge_parameters", "unwrap<-BTreeMapTryInsertExt::insert_or_error"): (1, "EXTERNAL", "a schema field cannot declare two arguments with one name (parser / schema validation)"),
+    # make_edge_parameters `insert_or_error(..).unwrap()`: NOT audited any more - neither the parser nor Schema::new rejects a field
+    # that declares the same argument twice (listed known finding)
     ("frontend::make_edge_parameters", "unwrap<-TryFrom::try_from"): (1, "GUARD:G-SCHEMA-DEFAULTS", "Schema::new converted every default value successfully"),
     ("frontend::make_ir_for_query", "unwrap<-<impl usize>::checked_add"): (2, "LIMIT", "usize overflow of an id counter"),
     ("frontend::make_ir_for_query", "unwrap<-Iterator::next"): (1, "LOCAL", "first element of `successors(Some(1), ..)`"),
